@@ -21,6 +21,7 @@ import (
 	"github.com/attestantio/go-builder-client/spec"
 	"github.com/attestantio/go-eth2-client/spec/phase0"
 	"github.com/attestantio/vouch/util"
+	e2wtypes "github.com/wealdtech/go-eth2-wallet-types/v2"
 	"go.opentelemetry.io/otel"
 	"go.opentelemetry.io/otel/attribute"
 	"go.opentelemetry.io/otel/trace"
@@ -107,7 +108,15 @@ func (s *Service) immediateBuilderBid(ctx context.Context,
 
 	s.log.Trace().Uint64("slot", uint64(slot)).Stringer("pubkey", pubkey).Msg("Obtaining immediate builder bid for validator")
 
-	results, err := s.auctionBlock(ctx, slot, parentHash, pubkey, nil)
+	// A validator that Vouch controls arrives here when its cached bid is for another parent (reorg).  Its proposer
+	// settings are those that apply to its account, so use the account if the account manager holds the key;
+	// a validator that is not controlled by Vouch has no account.
+	var account e2wtypes.Account
+	if controlledAccount, err := s.accountsProvider.AccountByPublicKey(ctx, pubkey); err == nil {
+		account = controlledAccount
+	}
+
+	results, err := s.auctionBlock(ctx, slot, parentHash, pubkey, account)
 	if err != nil || results == nil || results.WinningParticipation == nil {
 		monitorBuilderBid(time.Since(started), false)
 		return nil, err
